@@ -208,7 +208,7 @@ var re = regexp.MustCompile(ansi)
 // FirstSequence returns the length of the ANSI escape
 // sequence a string starts with, or 0 if it starts with none.
 func FirstSequence(str string) int {
-	if loc := re.FindStringIndex(str); loc != nil && loc[0] == 0 {
+	if loc := re.FindStringIndex(str); len(loc) == 2 && loc[0] == 0 {
 		return loc[1]
 	}
 
